@@ -231,6 +231,28 @@ func checkC28(r *Run) {
 			req("user constraints verified", "ok(transaction.VerifySingleTxnUserConstraints(*))"))
 	}
 	r.RequireOnSuccess("C28-R7", "coin.Transaction.verify", req("one signature slot per input (what SignTransaction relies on)", "len($0.Sigs) == len($0.In)"))
+	// R8: SignInput panics on a key that is not a valid secret key (MustSignHash).  The entries of a watch-only
+	// (xpub) wallet carry no secret, so every wallet-layer function that signs with entry secrets refuses xpub
+	// wallets before it reaches SignInput
+	nSign := 0
+	for _, f := range r.P.ModFns {
+		name := FnName(f)
+		if !strings.HasPrefix(name, "wallet.") && !strings.HasPrefix(name, "visor.") {
+			continue
+		}
+		ff := r.P.Facts(f)
+		for _, cs := range r.CallSites(f, "coin.Transaction.SignInput") {
+			nSign++
+			var fs []string
+			for _, a := range ff.MustAt(cs) {
+				fs = append(fs, a.S)
+			}
+			_, m := matchAny([]string{"iface:wallet.Wallet.Type*(*) != \"xpub\"", "\"xpub\" != iface:wallet.Wallet.Type*(*)"}, fs)
+			r.Check("C28-R8", name+": signs with wallet entry secrets only after refusing watch-only (xpub) wallets", r.P.Pos(cs.Pos()), m,
+				"an xpub wallet's entries hold a null secret key: SignInput -> MustSignHash panics (\"Invalid secret key\") inside the request handler")
+		}
+	}
+	r.Check("C28-R8", "wallet-layer signing sites", "", nSign >= 2, fmt.Sprint(nSign))
 	r.Units["unchecked type assertions in package api"] = nTA
 	r.Units["non-constant integer divisions in package api"] = nDiv
 	r.Pass("C28-R5", "package api scanned for unchecked type assertions and divisions", "", fmt.Sprintf("%d assertions, %d divisions", nTA, nDiv))
